@@ -1040,7 +1040,7 @@ func families(tier string) []fw.Family {
 	if s := os.Getenv("C15_DEPTH"); s != "" {
 		fmt.Sscan(s, &depth)
 	}
-	fs := []fw.Family{historyFamily("full", full, nil, 0, depth, 3)}
+	fs := []fw.Family{fitImageFamily(), historyFamily("full", full, nil, 0, depth, 3)}
 	if tier == "thorough" {
 		fs = append(fs, historyFamily("core", core, nil, 5, 5, 0))
 		for _, s := range seeds {
@@ -1070,7 +1070,7 @@ func Prop() *fw.Property {
 			"state = one history (tree node), transition = its last call; every history is run on NewContext(recording renderer) and on NewContext(canvas.New(10,6)) and compared with the matrix/style stack model: renderer calls (count, order, z-index, path data bit-for-bit, style, matrix 1e-12), Context state after the history and after popping the whole stack and once more, Canvas replay = recorded calls in ascending z then draw order (exact, with the callers' paths edited afterwards), RenderViewTo/Transform/Clip/Fit; " +
 			"distinct_nontrivial = distinct canonical dumps (model state + recorded calls) among the unprefixed histories of <=3 calls and the prefixed ones with <=2 further calls",
 		Assumptions: []string{
-			"bounded depth and the fixed argument menu; gradients/patterns, SetStrokeCapper, FitImage, SetCoordRect and curves in the pending path are outside the alphabet",
+			"bounded depth and the fixed argument menu; gradients/patterns, SetStrokeCapper, SetCoordRect and curves (FitImage has its own family: 4 coordinate systems x 3 fits x 4 images x 3 rectangles x 3 views x coordinate view on/off) in the pending path are outside the alphabet",
 			"Path.MoveTo/LineTo (C10) build the expected pending path; image/color conversion of color.RGBA values is the identity",
 			"a recorded dash pattern counts as the requested one when the set of stroked arc-length intervals on every subpath is the same (1e-9) with dash lengths read in mm (SetDashes doc) or in stroke widths (canvas.ScaleDash, all renderers); the two readings differ and the statement does not choose: see the note:…(D20) outcome class; C15_DASH_UNIT=mm|width insists on one",
 			"renderer calls with an empty path or with neither fill nor stroke are ignored on both sides (the statement does not say whether they are made)",
